@@ -29,6 +29,7 @@ import (
 )
 
 const tick = 1953125 * time.Nanosecond // 1/512 s
+const tick512 = tick
 
 var epoch = time.Unix(1_600_000_000, 0)
 
@@ -37,7 +38,12 @@ func at(k int64) time.Time { return epoch.Add(time.Duration(k) * tick) }
 type callT struct {
 	Key string
 	Now int64 // ticks
+	// Pause: before this call, wait (wall clock) until the store's 5-minute cleanup ticker has fired once
+	Pause bool `json:",omitempty"`
 }
+
+// cleanupWait is how long after its creation a store has certainly run its first cleanup.
+const cleanupWait = 5*time.Minute + 3*time.Second
 
 type outT struct {
 	Allowed          bool
@@ -52,11 +58,26 @@ type caseT struct {
 	Calls []callT `json:",omitempty"`
 	// C: the last NConc calls are simultaneous
 	NConc int `json:",omitempty"`
+	// EpochAgoSec: tick 0 of this case lies that many seconds before the moment the case is run
+	// (default 0: a fixed instant in 2020). The cleanup cases need scripted times near the wall clock,
+	// because the store's cleanup compares entries with time.Now().
+	EpochAgoSec int64 `json:",omitempty"`
+	epoch       time.Time
 	// M
 	Headers, Enforce, Callback bool
 	ViaNew                     bool `json:",omitempty"`
 	// W
 	Win *winCase `json:",omitempty"`
+}
+
+func (k *caseT) at(tick int64) time.Time {
+	if k.EpochAgoSec != 0 {
+		if k.epoch.IsZero() {
+			k.epoch = time.Now().Add(-time.Duration(k.EpochAgoSec) * time.Second).Truncate(time.Second)
+		}
+		return k.epoch.Add(time.Duration(tick) * tick512)
+	}
+	return at(tick)
 }
 
 func guard(f func()) (panicked bool) {
@@ -94,7 +115,7 @@ func (g *traceGen) next() callT {
 		}
 		if t >= g.now {
 			g.now = t
-			return callT{key, t}
+			return callT{Key: key, Now: t}
 		}
 	}
 	var dt int64
@@ -124,7 +145,7 @@ func (g *traceGen) next() callT {
 		}
 	}
 	g.now += dt
-	return callT{key, g.now}
+	return callT{Key: key, Now: g.now}
 }
 
 func (g *traceGen) saw(c callT, o outT) {
@@ -200,6 +221,7 @@ func (k *caseT) runStore(id string, st *hx.Stats, gen *traceGen, n int) string {
 	var outs []outT
 	panicked := guard(func() {
 		store := ratelimit.NewInMemoryTokenBucketStore(k.Rate, k.Burst)
+		created := time.Now()
 		serial := len(k.Calls) - k.NConc
 		if gen != nil {
 			serial = n
@@ -212,7 +234,10 @@ func (k *caseT) runStore(id string, st *hx.Stats, gen *traceGen, n int) string {
 			} else {
 				c = k.Calls[i]
 			}
-			a, rem, rst := store.Allow(c.Key, at(c.Now))
+			if c.Pause {
+				time.Sleep(time.Until(created.Add(cleanupWait)))
+			}
+			a, rem, rst := store.Allow(c.Key, k.at(c.Now))
 			o := outT{a, rem, rst}
 			outs = append(outs, o)
 			if gen != nil {
@@ -221,7 +246,7 @@ func (k *caseT) runStore(id string, st *hx.Stats, gen *traceGen, n int) string {
 		}
 		if k.NConc > 0 {
 			if gen != nil {
-				c := callT{hx.Pick(gen.r, gen.keys), gen.now + int64(gen.r.Range(0, 300))}
+				c := callT{Key: hx.Pick(gen.r, gen.keys), Now: gen.now + int64(gen.r.Range(0, 300))}
 				for i := 0; i < k.NConc; i++ {
 					k.Calls = append(k.Calls, c)
 				}
@@ -235,7 +260,7 @@ func (k *caseT) runStore(id string, st *hx.Stats, gen *traceGen, n int) string {
 				go func(i int) {
 					defer wg.Done()
 					<-start
-					a, rem, rst := store.Allow(c.Key, at(c.Now))
+					a, rem, rst := store.Allow(c.Key, k.at(c.Now))
 					res[i] = outT{a, rem, rst}
 				}(i)
 			}
@@ -382,7 +407,7 @@ func (k *caseT) runMw(id string, st *hx.Stats, gen *traceGen, n int) string {
 			var c callT
 			if gen != nil {
 				if k.ViaNew {
-					c = callT{hx.Pick(gen.r, gen.keys), 0}
+					c = callT{Key: hx.Pick(gen.r, gen.keys)}
 				} else {
 					c = gen.next()
 				}
@@ -462,6 +487,7 @@ type winReq struct {
 	SleepToNextWindow bool  `json:",omitempty"` // sleep until the next window starts (+OffsetMs)
 	OffsetMs          int   `json:",omitempty"`
 	RetryOf           int   `json:",omitempty"` // 1+index of the 429 this request retries after its Retry-After
+	PauseCleanup      bool  `json:",omitempty"` // wait until the store's cleanup ticker has fired once
 	now               int64 // t0 in ns (filled while running)
 }
 
@@ -527,6 +553,7 @@ func (w *winCase) run(id string) (line string, discard string, nontrivial bool, 
 	n := len(w.Reqs)
 	window := time.Duration(w.W) * time.Second
 	Wns := int64(window)
+	created := time.Now()
 	ss := &schedStore{inner: ratelimit.NewInMemoryStore(), turn: map[opT]chan struct{}{}, done: map[opT]chan struct{}{},
 		got: map[int][3]int64{}, tG: map[int]time.Time{}}
 	for _, op := range w.Sched {
@@ -563,6 +590,9 @@ func (w *winCase) run(id string) (line string, discard string, nontrivial bool, 
 				}
 				time.Sleep(time.Until(time.Unix(0, w.Reqs[j].now).Add(time.Duration(ra)*time.Second + 3*time.Millisecond)))
 				retries = append(retries, [2]int{j, i})
+			}
+			if q.PauseCleanup {
+				time.Sleep(time.Until(created.Add(cleanupWait)))
 			}
 			if q.SleepToNextWindow {
 				next := time.Now().Truncate(window).Add(window).Add(time.Duration(q.OffsetMs) * time.Millisecond)
@@ -786,17 +816,17 @@ func fixedCases() []*caseT {
 	return []*caseT{
 		// K16a: rate 1, burst 1: second call half a second later is rejected; reset must be 1 (s), and the
 		// retry one second after the rejection succeeds
-		{Kind: "S", Rate: 1, Burst: 1, Calls: []callT{{"k", 0}, {"k", 256}, {"k", 256 + 512}}},
-		{Kind: "S", Rate: 2, Burst: 1, Calls: []callT{{"k", 0}, {"k", 1}, {"k", 1 + 512}, {"k", 2 + 512}}},
-		{Kind: "M", Rate: 1, Burst: 1, Headers: true, Enforce: true, Calls: []callT{{"k", 0}, {"k", 256}, {"k", 256 + 512}}},
+		{Kind: "S", Rate: 1, Burst: 1, Calls: []callT{{Key: "k", Now: 0}, {Key: "k", Now: 256}, {Key: "k", Now: 256 + 512}}},
+		{Kind: "S", Rate: 2, Burst: 1, Calls: []callT{{Key: "k", Now: 0}, {Key: "k", Now: 1}, {Key: "k", Now: 1 + 512}, {Key: "k", Now: 2 + 512}}},
+		{Kind: "M", Rate: 1, Burst: 1, Headers: true, Enforce: true, Calls: []callT{{Key: "k", Now: 0}, {Key: "k", Now: 256}, {Key: "k", Now: 256 + 512}}},
 		// slow refill: rate 1, burst 3, drained, retry needs a full second
-		{Kind: "S", Rate: 1, Burst: 3, Calls: []callT{{"k", 0}, {"k", 0}, {"k", 0}, {"k", 0}, {"k", 511}, {"k", 512}}},
+		{Kind: "S", Rate: 1, Burst: 3, Calls: []callT{{Key: "k", Now: 0}, {Key: "k", Now: 0}, {Key: "k", Now: 0}, {Key: "k", Now: 0}, {Key: "k", Now: 511}, {Key: "k", Now: 512}}},
 		// regressing clock: tokens are taken away, never added
-		{Kind: "S", Rate: 5, Burst: 2, Calls: []callT{{"k", 1000}, {"k", 400}, {"k", 400}, {"k", 1000}, {"k", 1000}}},
+		{Kind: "S", Rate: 5, Burst: 2, Calls: []callT{{Key: "k", Now: 1000}, {Key: "k", Now: 400}, {Key: "k", Now: 400}, {Key: "k", Now: 1000}, {Key: "k", Now: 1000}}},
 		// keys do not influence each other
-		{Kind: "S", Rate: 1, Burst: 1, Calls: []callT{{"a", 0}, {"b", 0}, {"a", 1}, {"b", 1}, {"c", 1}}},
+		{Kind: "S", Rate: 1, Burst: 1, Calls: []callT{{Key: "a", Now: 0}, {Key: "b", Now: 0}, {Key: "a", Now: 1}, {Key: "b", Now: 1}, {Key: "c", Now: 1}}},
 		// 8 simultaneous calls on 3 tokens
-		{Kind: "C", Rate: 1, Burst: 3, NConc: 8, Calls: []callT{{"k", 0}, {"k", 0}, {"k", 0}, {"k", 0}, {"k", 0}, {"k", 0}, {"k", 0}, {"k", 0}}},
+		{Kind: "C", Rate: 1, Burst: 3, NConc: 8, Calls: []callT{{Key: "k", Now: 0}, {Key: "k", Now: 0}, {Key: "k", Now: 0}, {Key: "k", Now: 0}, {Key: "k", Now: 0}, {Key: "k", Now: 0}, {Key: "k", Now: 0}, {Key: "k", Now: 0}}},
 		// K16b race: limit 1, both requests read the count before either increments it
 		{Kind: "W", Win: &winCase{Limit: 1, W: 3600, Headers: true, Enforce: true, Reqs: []winReq{{Key: "a"}, {Key: "a"}},
 			Sched: []opT{{true, 0}, {true, 1}, {false, 0}, {false, 1}}}},
@@ -808,6 +838,34 @@ func fixedCases() []*caseT {
 			Reqs:  []winReq{{Key: "a", SleepToNextWindow: true, OffsetMs: 100}, {Key: "a"}, {Key: "a"}, {Key: "a", RetryOf: 3}},
 			Sched: serialSched(4)}},
 	}
+}
+
+// slowCases are the two cases that wait for the stores' 5-minute cleanup tick (K16c, K16d). They are
+// generated only in the thorough tier (first seed) and run concurrently with everything else.
+func slowCases() []*caseT {
+	var out []*caseT
+	// token bucket: burst larger than what the idle time refills. Drain it, wait for the cleanup, go on.
+	s := &caseT{Kind: "S", Rate: 1, Burst: 10000, EpochAgoSec: 7200}
+	for i := 0; i < 10001; i++ {
+		s.Calls = append(s.Calls, callT{Key: "k"})
+	}
+	for i := 0; i < 5; i++ {
+		s.Calls = append(s.Calls, callT{Key: "k", Now: 512, Pause: i == 0})
+	}
+	out = append(out, s)
+	// sliding window longer than the store's 2-hour retention, started more than 2 hours ago and with more
+	// than 10 minutes to go: its counters must survive the cleanup
+	for _, h := range []int{3, 4, 6, 8, 12, 24} {
+		w := time.Duration(h) * time.Hour
+		start := time.Now().Truncate(w)
+		if time.Since(start) > 2*time.Hour+10*time.Minute && time.Until(start.Add(w)) > 10*time.Minute {
+			out = append(out, &caseT{Kind: "W", Win: &winCase{Limit: 3, W: h * 3600, Headers: true, Enforce: true,
+				Reqs:  []winReq{{Key: "a"}, {Key: "a"}, {Key: "a"}, {Key: "a", PauseCleanup: true}, {Key: "a"}},
+				Sched: serialSched(5)}})
+			break
+		}
+	}
+	return out
 }
 
 func main() {
@@ -838,6 +896,18 @@ func main() {
 		for i := range rolls {
 			rolls[i].id = fmt.Sprintf("c16-%d-roll-%d", a.Seed, i)
 			rolls[i].k = &caseT{Kind: "W", Win: genWin(r, true)}
+		}
+		var slow []*caseT
+		if a.Tier == "thorough" && a.Seed%1000 == 0 && a.N >= 200 {
+			slow = slowCases()
+		}
+		slowLines := make([]string, len(slow))
+		for i := range slow {
+			wg.Add(1)
+			go func(i int) {
+				defer wg.Done()
+				slowLines[i] = emitCase(fmt.Sprintf("c16-%d-slow-%d", a.Seed, i), slow[i], nil)
+			}(i)
 		}
 		fixed := fixedCases()
 		fixedLines := make([]string, len(fixed))
@@ -901,6 +971,15 @@ func main() {
 				st.Count("W.rolling_window_real_time")
 			} else if fixed[i].Kind == "W" && fixed[i].Win.W < 3600 {
 				st.Count("W.discarded_fixed_witness_timing")
+			}
+		}
+		for i, sl := range slowLines {
+			if sl != "" {
+				fmt.Fprintln(w, sl)
+				st.Case("slow-"+strconv.Itoa(i), true)
+				st.Count("cases_across_a_store_cleanup_tick")
+			} else {
+				st.Count("discarded_cleanup_case")
 			}
 		}
 		for _, rr := range rolls {
